@@ -24,8 +24,7 @@ from .core import Finding, sx
 
 THEOREMS = ["Cspuz.C03.C03_text_roundtrip", "Cspuz.C03.C03_wt_printable", "Cspuz.C03.C03_reply_sat",
             "Cspuz.C03.C03_reply_facts", "Cspuz.C03.C03_five_backends", "Cspuz.C03.C03_backend_correct",
-            "Cspuz.C03.C03_native_deduction", "Cspuz.C03.C03_plain_sugar", "Cspuz.C03.C03_java_loop",
-            "Cspuz.C03.C03_solver_exists"]
+            "Cspuz.C03.C03_native_deduction"]
 
 NAMES = ["sugar", "sugar_extended", "csugar", "enigma_csp", "cspuz_core"]
 FAKE_MODULES = {"csugar": "pycsugar", "enigma_csp": "enigma_csp", "cspuz_core": "cspuz_core"}
@@ -731,7 +730,7 @@ def correspond(ctx):
         lines.append(line)
         checks.append(fn)
 
-    ncases = ctx.n(260, 2600)
+    ncases = ctx.n(1500, 12000)
     for _ in range(ncases):
         try:
             vs, cs, kind = gen_case(rng)
@@ -767,7 +766,8 @@ def correspond(ctx):
                 ctx.disagree("backends-differ:find", backend=name, vars=vtxt, constraints=cs_txt, got=r1, ref=ref_res)
             c2, r2 = descs[(name, "deduce")]
             if name == "sugar":
-                if r2 != ["err", "NotImplementedError"] or c2:
+                # conversion errors of add_constraint come first; otherwise the override raises NotImplementedError
+                if r2 != (ref_res if ref_res[0] == "err" else ["err", "NotImplementedError"]) or c2:
                     ctx.disagree("sugar-native-deduction", vars=vtxt, got=r2)
             elif [d for _, d in c2] != [d for _, d in ref_calls2] or r2 != ref_res2:
                 ctx.disagree("backends-differ:deduce", backend=name, vars=vtxt, constraints=cs_txt, got=r2, ref=ref_res2)
